@@ -7,13 +7,16 @@
 //                 through a VRT resolver that walks the current block table)
 //   mode relock   regression for fix 6566b0b: an Accessor released INSIDE a region closes the region; the slot
 //                 is reused by the next accessor; sequential, lock-step replayed like mode acc
+//   mode big      65535 … 131072 accessors ever created (bulk, outside the controlled section), regions on a few
+//                 probe accessors (first / middle / last / around the 2^16 wrap), sequential; oracle only
 //   With VRT_MEM=view in the environment the same programs run under VRT's stale-read simulation
 //   (oracle only, no lock-step replay).
 // One run = one seeded program on one seeded schedule:
 //   1-3 readers opening regions (nesting <= 3), loading the shared cell `ptr`, dereferencing the
 //   object it names twice (with a yield in between), closing; Accessor style readers also release /
 //   re-create their accessor and may hand a LOCKED accessor over to a helper thread that finishes the
-//   region; 1 writer that unlinks (exchange on `ptr`), ticks and retires; a reclaimer (the writer itself
+//   region; 1-3 concurrent writers that unlink (exchange on `ptr`), tick and retire, 0-2 threads that only tick;
+//   a reclaimer (the writer itself
 //   or a separate thread fed through a release/acquire channel) that calls low_water_mark() and frees
 //   every retired object whose epoch it has reached.
 // Property oracle (evaluated on the real code, `ev ORACLE <kind> …`):
@@ -21,7 +24,8 @@
 //   held-back  after unlock to depth 0 the slot still publishes a version / at quiescence
 //              low_water_mark() != UINT64_MAX
 //   nesting    a nested lock / unlock changed the published version
-//   tick       tick() values are not 1,2,3,…
+//   tick-rollback  a tick() that starts after another one returned does not return a larger value
+//   mark-passed    (mode big) low_water_mark() reached the tick although a region opened before the unlink is open
 // Output per run:  RUN <seed> mode=acc|tls bs=<slots per block> n0=<thread ids minted before> nb0=<blocks> tbl0=<table ptr> …
 #include "../vrt/vrt.h"
 
@@ -73,7 +77,7 @@ struct World {
   struct Retired { uint64_t obj, epoch; bool freed; };
   std::vector<Retired> retired;         // written by the writer before the release store on chan_retire
   struct Xfer { Accessor acc; uint64_t id; int depth; bool used; } xfer[4];
-  uint64_t last_tick = 0;
+  uint64_t max_tick = 0;                // largest value any completed tick() returned so far
   // the slot may legitimately publish again right after a release if another thread re-created an
   // accessor on it and locked; the post-release check is therefore made on the nesting counter
   bool reused_since(size_t idx);
@@ -240,6 +244,28 @@ static void reclaim(World& w, uint64_t known) {
   }
 }
 
+// tick() values strictly increase in real time: a call that starts after another one returned gets a
+// larger value (several threads tick concurrently: every retiring thread of the GC does)
+static uint64_t do_tick(World& w) {
+  uint64_t before = w.max_tick;
+  vrt_event("call tick");
+  uint64_t e = w.epoch.tick();
+  vrt_event("ret tick %lu", e);
+  if (e <= before) vrt_event("ORACLE tick-rollback tick() returned %lu although %lu had already been returned", e, before);
+  if (e > w.max_tick) w.max_tick = e;
+  return e;
+}
+
+// a thread that only advances the epoch (like a retiring thread whose reclamation is done elsewhere)
+static void ticker(World& w, uint64_t seed) {
+  Rng r(seed);
+  int n = 1 + (int)r.below(3);
+  for (int i = 0; i < n; ++i) {
+    do_tick(w);
+    if (r.below(2)) sched_yield();
+  }
+}
+
 static void writer(World& w, uint64_t seed, bool self_reclaim) {
   Rng r(seed);
   int unlinks = 1 + (int)r.below(3);
@@ -248,11 +274,7 @@ static void writer(World& w, uint64_t seed, bool self_reclaim) {
     w.objs[fresh].data = 1000 + fresh;
     uint64_t old = w.ptr.exchange(fresh, std::memory_order_acq_rel);
     vrt_event("unlink %lu new %lu", old, fresh);
-    vrt_event("call tick");
-    uint64_t e = w.epoch.tick();
-    vrt_event("ret tick %lu", e);
-    if (e != w.last_tick + 1) vrt_event("ORACLE tick returned %lu after %lu", e, w.last_tick);
-    w.last_tick = e;
+    uint64_t e = do_tick(w);
     w.retired.push_back({old, e, false});
     w.chan_retire.store(e, std::memory_order_release);
     if (self_reclaim) {
@@ -322,12 +344,15 @@ static void run(const std::string& mode, uint64_t seed) {
   bool with_helper = !tls;
   uint64_t rs[3] = {rng.next(), rng.next(), rng.next()};
   uint64_t ws = rng.next(), cs = rng.next();
+  int nwriters = 1 + (int)rng.below(3);     // 1-3 concurrent writers (unlink + tick + retire)
+  int ntickers = (int)rng.below(3);         // 0-2 threads that only tick
+  uint64_t ws2[2] = {rng.next(), rng.next()}, tks[2] = {rng.next(), rng.next()};
   uint64_t tbl0 = (uint64_t)(uintptr_t)*reinterpret_cast<void**>(&w.epoch._slots._block_table);
   size_t nb0 = nslots / bs;
 
   vrt_begin(seed);
-  printf("RUN %lu mode=%s bs=%zu n0=%u nb0=%zu tbl0=%lu readers=%d selfreclaim=%d\n", (unsigned long)seed,
-         tls ? "tls" : "acc", bs, tls ? n0 : 0u, nb0, (unsigned long)tbl0, nreaders, (int)self_reclaim);
+  printf("RUN %lu mode=%s bs=%zu n0=%u nb0=%zu tbl0=%lu readers=%d writers=%d tickers=%d selfreclaim=%d\n", (unsigned long)seed,
+         tls ? "tls" : "acc", bs, tls ? n0 : 0u, nb0, (unsigned long)tbl0, nreaders, nwriters, ntickers, (int)self_reclaim);
   {
     std::vector<std::thread> ts;
     for (int i = 0; i < nreaders; ++i) {
@@ -335,6 +360,8 @@ static void run(const std::string& mode, uint64_t seed) {
       else ts.emplace_back([&w, s = rs[i], i] { reader_acc(w, s, i); });
     }
     ts.emplace_back([&w, ws, self_reclaim] { writer(w, ws, self_reclaim); });
+    for (int i = 1; i < nwriters; ++i) ts.emplace_back([&w, s = ws2[i - 1], self_reclaim] { writer(w, s, self_reclaim); });
+    for (int i = 0; i < ntickers; ++i) ts.emplace_back([&w, s = tks[i]] { ticker(w, s); });
     if (!self_reclaim) ts.emplace_back([&w, cs] { reclaimer(w, cs); });
     if (with_helper) ts.emplace_back([&w, nreaders] { helper(w, nreaders); });
     for (auto& t : ts) t.join();
@@ -406,13 +433,78 @@ static void run_relock(uint64_t seed) {
   g_world = nullptr;
 }
 
+// Many accessors: `accessor_number()` (ids ever created) at / beyond 2^16, so that a scan bound kept in
+// a narrower type than the id allocator's counter would wrap.  N accessors are created in bulk OUTSIDE the
+// controlled section, all but a few probes released again; then, under VRT, for each probe: open a region on
+// it, unlink, tick, low_water_mark, reclaim what the mark allows, dereference.  Oracle only.
+static void run_big(uint64_t seed) {
+  auto wp = std::make_unique<World>();
+  World& w = *wp;
+  w.objs[0].data = 1000;
+  Rng rng(seed);
+  static const size_t sizes[] = {65536, 65537, 65536 + 7, 70000, 65535, 131072};
+  size_t n = sizes[rng.below(6)];
+  std::vector<size_t> probes = {0, n / 2, n - 1, n % 65536, (n % 65536 + n - 1) % n, (size_t)rng.below(n)};
+  std::vector<Accessor> live(probes.size());
+  {
+    std::vector<Accessor> all;
+    all.reserve(n);
+    for (size_t i = 0; i < n; ++i) all.emplace_back(w.epoch.create_accessor());
+    for (size_t k = 0; k < probes.size(); ++k)
+      if (!live[k] && all[probes[k]]._index == probes[k]) {
+        bool dup = false;
+        for (size_t j = 0; j < k; ++j) dup = dup || probes[j] == probes[k];
+        if (!dup) live[k] = std::move(all[probes[k]]);
+      }
+  }   // the others are released here
+  vrt_unname_all();
+  vrt_set_resolver(nullptr);
+  vrt_begin(seed);
+  printf("RUN %lu mode=big accessors=%zu\n", (unsigned long)seed, n);
+  for (size_t k = 0; k < live.size(); ++k) {
+    if (!live[k]) continue;
+    size_t idx = live[k]._index;
+    do_lock(w, &live[k], idx, 0);
+    uint64_t id = w.ptr.load(std::memory_order_acquire);
+    deref(w, id, "first");
+    uint64_t fresh = w.next_obj++;
+    w.objs[fresh].data = 1000 + fresh;
+    uint64_t old = w.ptr.exchange(fresh, std::memory_order_acq_rel);
+    vrt_event("unlink %lu new %lu", old, fresh);
+    uint64_t e = do_tick(w);
+    w.retired.push_back({old, e, false});
+    vrt_event("call lwm");
+    uint64_t m = w.epoch.low_water_mark();
+    vrt_event("ret lwm %lu", m);
+    if (m >= e) vrt_event("ORACLE mark-passed low_water_mark()=%lu reached tick %lu with %zu accessors while the region of accessor %zu, opened before the unlink, is open", m, e, n, idx);
+    for (auto& it : w.retired)
+      if (!it.freed && it.epoch <= m) {
+        it.freed = true;
+        w.objs[it.obj].freed = true;
+        w.objs[it.obj].data = 0xdead;
+        vrt_event("free %lu %lu", it.obj, it.epoch);
+      }
+    deref(w, id, "second");
+    do_unlock(w, &live[k], idx, 1);
+  }
+  vrt_event("call lwm");
+  uint64_t m = w.epoch.low_water_mark();
+  vrt_event("ret lwm %lu", m);
+  if (m != UINT64_MAX) vrt_event("ORACLE held-back low_water_mark is %lu at quiescence", m);
+  vrt_event("stats steps %lu switches %lu stale %lu", vrt_steps(), vrt_switches(), vrt_stale_reads());
+  vrt_end();
+  vrt_dump(stdout);
+}
+
 int main(int argc, char** argv) {
   std::string mode = argc > 1 ? argv[1] : "acc";
   uint64_t seed0 = argc > 2 ? strtoull(argv[2], 0, 10) : 1;
   int nruns = argc > 3 ? atoi(argv[3]) : 1;
-  if (mode != "acc" && mode != "tls" && mode != "relock") return 2;
+  if (mode != "acc" && mode != "tls" && mode != "relock" && mode != "big") return 2;
   for (int i = 0; i < nruns; ++i) {
-    if (mode == "relock") run_relock(seed0 + i); else run(mode, seed0 + i);
+    if (mode == "relock") run_relock(seed0 + i);
+    else if (mode == "big") run_big(seed0 + i);
+    else run(mode, seed0 + i);
   }
   return 0;
 }
